@@ -16,19 +16,24 @@ class C09(WrapHarness):
                 for le in ('LF', 'CRLF'):
                     for ind in ('none', 'both'):
                         for bw in (True, False):
-                            if q and ((feat == 'nd' and (ind == 'both' or not bw)) or (algo == 'O' and not bw)):
+                            if q and ((feat == 'nd' and (ind == 'both' or not bw or le == 'CRLF')) or (algo == 'O' and not bw)
+                                      or (algo == 'O' and (le == 'CRLF' or ind == 'both'))):
                                 continue
                             base = {'feat': feat, 'algo': algo, 'sep': 'A', 'split': 'H', 'bw': bw, 'le': le, 'ind': ind,
                                     'imax': 1, 'wmax': 1 << 20}
                             out.append(dict(base, mode='prefix', na=1 if q else 2, nb=2, na2=0))
-                            out.append(dict(base, mode='indep', na=1 if q else 2, nb=2 if ind == 'none' or not q else 1,
-                                            na2=1))
+                            out.append(dict(base, mode='indep', na=1 if q else 2, nb=1 if q else 2, na2=1))
         out.append({'feat': 'full', 'algo': 'F', 'sep': 'A', 'split': 'H', 'bw': True, 'le': 'LF', 'ind': 'none',
                     'imax': 1, 'wmax': 1 << 20, 'mode': 'prefix', 'na': 2, 'nb': 2 if q else 3, 'na2': 0})
         out.append({'feat': 'full', 'algo': 'O', 'sep': 'U', 'split': 'H', 'bw': True, 'le': 'LF', 'ind': 'si', 'imax': 1,
-                    'mode': 'prefix', 'na': 2, 'nb': 2, 'na2': 0, 'alpha': [' ', 'a', '-', '你'], 'wmax': 1 << 20})
-        out.append({'feat': 'full', 'algo': 'O', 'sep': 'U', 'split': 'H', 'bw': True, 'le': 'LF', 'ind': 'si', 'imax': 1,
-                    'mode': 'indep', 'na': 2, 'nb': 2, 'na2': 1, 'alpha': [' ', 'a', '-', '你'], 'wmax': 1 << 20})
+                    'mode': 'prefix', 'na': 1 if q else 2, 'nb': 2, 'na2': 0, 'alpha': [' ', 'a', '-', '你'], 'wmax': 1 << 20})
+        out.append({'feat': 'full', 'algo': 'F' if q else 'O', 'sep': 'U', 'split': 'H', 'bw': True, 'le': 'LF', 'ind': 'si',
+                    'imax': 1, 'mode': 'indep', 'na': 1 if q else 2, 'nb': 2, 'na2': 1, 'alpha': [' ', 'a', '-', '你'],
+                    'wmax': 1 << 20})
+        if not q:
+            for ind in ('both',):
+                out.append({'feat': 'full', 'algo': 'O', 'sep': 'A', 'split': 'H', 'bw': True, 'le': 'CRLF', 'ind': ind,
+                            'imax': 1, 'wmax': 1 << 20, 'mode': 'prefix', 'na': 2, 'nb': 2, 'na2': 0})
         return out
 
     def bounds_text(self, tier):
